@@ -42,7 +42,8 @@ UNPROVED = [
     "real Vector sampler's |b|/scale against Gamma(d,1), of each coordinate of b/|b| against its Beta marginal; DKW "
     "threshold, false-alarm < 1e-14 per test; also end-to-end through LogisticRegression.fit)",
 ]
-RULE = ("configurations (epsilon in [1e-2,20], C in [1e-2,1e2], data_norm, d in 1..6, n in 10..200, 2..4 classes, both "
+RULE = ("[a quarter of the configurations sit within 1e-12 .. 1e-6 or 0..64 ulp of the branch point eps' = 0 of the rule; data "
+        "is passed as float64 / float32 / int / bool arrays, Fortran order or list of lists] configurations (epsilon in [1e-2,20], C in [1e-2,1e2], data_norm, d in 1..6, n in 10..200, 2..4 classes, both "
         "intercept settings spelled as bool and as numpy.bool_, Gaussian rows scaled so that a fraction exceeds data_norm or "
         "rows with every coordinate inside data_norm but norm above it) from the seed; each is fitted once "
         "with scripted noise; non-trivial when at least one row was clipped; distinct by the configuration tuple; the "
@@ -95,7 +96,7 @@ def observe_fit(cfg, X, y, script_seed, fast_rng=None):
                     ic = np.bool_(cfg["intercept"]) if cfg.get("ic_kind") == "np.bool_" else bool(cfg["intercept"])
                     clf = dp.models.LogisticRegression(epsilon=cfg["eps"], data_norm=cfg["norm"], C=cfg["C"],
                                                        fit_intercept=ic, max_iter=cfg.get("max_iter", 3))
-                    clf.fit(X, y)
+                    clf.fit(as_passed(cfg, X), y)
     finally:
         so.fmin_l_bfgs_b = prev
     return [c for c in calls if c.cls == "Vector"], rec, scripts, clf
@@ -113,6 +114,13 @@ def make_data(cfg, dseed):
     X = X / norms[:, None] * target[:, None]
     if cfg.get("data") == "coords-inside":
         X = np.array([[cfg["norm"] * r.uniform(-0.9, 0.9) for _ in range(d)] for _ in range(n)])
+    xk = cfg.get("xkind", "f64")
+    if xk == "f32":
+        X = X.astype(np.float32).astype(np.float64)
+    elif xk == "int":
+        X = np.rint(X * 2)
+    elif xk == "bool":
+        X = (X > 0).astype(np.float64)
     y = np.array([i % k for i in range(n)])
     perm = list(range(n))
     r.shuffle(perm)
@@ -120,7 +128,55 @@ def make_data(cfg, dseed):
     return X, y
 
 
+def as_passed(cfg, X):
+    """the container / dtype / memory order in which the caller hands the (same) numbers to fit"""
+    xk = cfg.get("xkind", "f64")
+    if xk == "f32":
+        return X.astype(np.float32)
+    if xk == "int":
+        return X.astype(np.int64)
+    if xk == "bool":
+        return X.astype(bool)
+    if xk == "fortran":
+        return np.asfortranarray(X)
+    if xk == "list":
+        return X.tolist()
+    return X
+
+
+OFFSETS = [1e-12, 1e-10, 5e-9, 1e-8, 1e-7, 1e-6]
+ULPS = [0, 1, 2, 8, 64]
+
+
+def branch_point(C, norm, intercept):
+    """per-problem epsilon at which eps' = eps - 2 log(1 + c s/alpha) changes sign (c = 1/4, alpha = 1/C)"""
+    s = np.sqrt(norm ** 2 + 1) if intercept else norm
+    return float(2 * np.log(1 + 0.25 * s / (1.0 / C)))
+
+
+def near_branch(r, star):
+    if r.chance(0.7):
+        return star + r.choice([-1, 1]) * r.choice(OFFSETS)
+    return gen.offset_ulps(star, r.choice([-1, 1]) * r.choice(ULPS))
+
+
 def gen_cfg(r):
+    cfg = gen_cfg0(r)
+    if r.chance(0.25):
+        # boundary stratum: the per-problem epsilon lands just above / just below / at the branch point of the rule
+        k = 1 if cfg["classes"] == 2 else cfg["classes"]
+        for _ in range(20):
+            C = r.choice([4.0, 2.0, r.loguniform(0.05, 50.0)])
+            star = branch_point(C, cfg["norm"], cfg["intercept"])
+            if 1e-2 <= k * star <= 20.0:
+                cfg["C"] = C
+                cfg["eps"] = k * near_branch(r, star)
+                cfg["stratum"] = "branch-point"
+                break
+    return cfg
+
+
+def gen_cfg0(r):
     eps = r.choice([1.0, r.loguniform(1e-2, 20.0), r.loguniform(1e-2, 20.0)])
     m = r.u01()
     if m < 0.35:
@@ -133,7 +189,9 @@ def gen_cfg(r):
             # every spelling of the flag sklearn's parameter validation accepts (it refuses the ints 0/1)
             "ic_kind": r.choice(["bool", "np.bool_"]),
             # "coords-inside": every coordinate within data_norm, yet many rows above it (d >= 2)
-            "data": r.choice(["scaled", "scaled", "coords-inside"])}
+            "data": r.choice(["scaled", "scaled", "coords-inside"]),
+            # the same numbers as float64 / float32 / integer / boolean arrays, Fortran order, list of lists
+            "xkind": r.choice(["f64", "f64", "f32", "f32", "int", "bool", "fortran", "list"])}
 
 
 def close(a, b, rel, abs_=0.0):
@@ -196,7 +254,7 @@ def direct(ctx, cfg, dseed, X, y, calls, opts, scripts):
         if not close(p["epsilon"], cfg["eps"] / k, 1e-12):
             return viol("eps-split", f"problem {i}: Vector received epsilon={p['epsilon']!r}, expected eps/k = {cfg['eps'] / k!r} (k={k})")
         # rows the optimiser sees
-        mx = float(np.linalg.norm(Xo, axis=1).max())
+        mx = float(np.linalg.norm(np.asarray(Xo, dtype=np.float64), axis=1).max())     # measured in double precision
         if not mx <= cfg["norm"] * (1 + 1e-12):
             return viol("row-norm", f"problem {i}: max row norm at the optimiser {mx!r} > data_norm {cfg['norm']!r}·(1+1e-12)")
         if Xo.shape != (n, d) or not np.all(sw == 1.0):
@@ -224,7 +282,10 @@ def direct(ctx, cfg, dseed, X, y, calls, opts, scripts):
         epsp_impl = 2 * s_ref / scale_impl
         eps_k = cfg["eps"] / k
         lam = float(l2)
-        e0 = eps_k - 2 * math.log(1 + 0.25 * s_ref / (n * lam))
+        # the branch quantity of the rule, eps - 2 log(1 + c s/alpha), evaluated on the arguments that reached the mechanism
+        # (each already checked above) with the operations the rule names — decisive down to rounding of eps itself
+        e0 = float(p["epsilon"] - 2 * np.log(1 + 0.25 * p["data_sensitivity"] / p["alpha"]))
+        band = 4 * EPS * eps_k
         dtol = 1e-11 * ex["mag"] + 1e-9 * abs(ex["delta"])
         if not (epsp_impl > 0 and ex["delta"] >= -dtol):
             return viol("cms-sign", f"problem {i}: eps'={epsp_impl!r}, Delta={ex['delta']!r} (need eps' > 0, Delta >= 0)")
@@ -234,13 +295,20 @@ def direct(ctx, cfg, dseed, X, y, calls, opts, scripts):
         if not abs(total - eps_k) <= slack:
             return viol("cms-identity", f"problem {i}: eps' + 2 log(1 + s/4/(n(Lambda+Delta))) = {total!r} but eps/k = {eps_k!r} "
                                         f"(eps'={epsp_impl!r} from |b|/sum(gammas), Delta={ex['delta']!r}, Lambda={lam!r}, s={s_ref!r})")
-        if abs(e0) > 1e-9 * (1 + eps_k):
-            if e0 > 0 and not (abs(ex["delta"]) <= dtol and close(epsp_impl, e0, 1e-9)):
-                return viol("cms-rule", f"problem {i}: eps - 2 log(1+cs/alpha) = {e0!r} > 0 but Delta={ex['delta']!r}, eps'={epsp_impl!r}")
-            if e0 < 0 and not close(epsp_impl, eps_k / 2, 1e-9):
-                return viol("cms-rule", f"problem {i}: fallback branch must use eps' = eps/2 = {eps_k / 2!r}, got {epsp_impl!r}")
+        if abs(e0) < band:
+            ctx.boundary_skipped += 1          # eps' within 4 ulp of eps of the branch point: either branch is rounding
+            ex["boundary"] = True
+        elif e0 > 0:
+            if not (abs(ex["delta"]) <= dtol and close(epsp_impl, e0, 1e-9)):
+                return viol("cms-rule", f"problem {i}: eps - 2 log(1+cs/alpha) = {e0!r} > 0, so the rule gives Delta = 0 and eps' = {e0!r}; "
+                                        f"the implementation used Delta={ex['delta']!r}, eps'={epsp_impl!r}")
         else:
-            ctx.boundary_skipped += 1
+            d_ref = (0.25 * s_ref / math.expm1(eps_k / 4) - float(p["alpha"])) / n
+            if not (close(epsp_impl, eps_k / 2, 1e-9) and close(ex["delta"], d_ref, 1e-8, dtol)):
+                return viol("cms-rule", f"problem {i}: eps - 2 log(1+cs/alpha) = {e0!r} <= 0, so the rule gives eps' = eps/2 = {eps_k / 2!r}, "
+                                        f"Delta = {d_ref!r}; the implementation used eps'={epsp_impl!r}, Delta={ex['delta']!r}")
+        if abs(e0) < 1e-5:
+            ctx.count("branch_point_cases")
         # shape of the perturbation at an independent probe point
         w2 = ex["w2"]
         want_v = float(np.dot(ex["b"], w2)) / n + 0.5 * ex["delta"] * float(np.dot(w2, w2))
@@ -301,8 +369,13 @@ def compare(ctx, cfg, dseed, X, calls, opts, scripts, obs, outs, rows):
         if len(glog) != 4 or c.obj._rng.n_normal != 4 * dim:
             return dis("random draws consumed by Vector.randomise", {"normals": 4 * dim, "gammas": 4},
                        {"normals": c.obj._rng.n_normal, "gammas": len(glog)})
+        if ex.get("boundary"):
+            ctx.boundary_skipped += 1          # model (Lean log) and code (numpy log) may take different branches here
+            pos += 2
+            continue
+        rel_s = 1e-9 + 16 * EPS * abs(m_epsk) / max(abs(m_epsp), 1e-300)     # eps' is a difference: cancellation near 0
         for e in glog:
-            if not (e[1] == dim / 4 and close(e[2], m_scale, 1e-9)):
+            if not (e[1] == dim / 4 and close(e[2], m_scale, rel_s)):
                 return dis("gammavariate(shape, scale) arguments", [dim / 4, m_scale], list(e[1:]))
         dtol = 1e-11 * ex["mag"]
         if not close(m_delta, ex["delta"], 1e-8, dtol):
@@ -321,8 +394,9 @@ def compare(ctx, cfg, dseed, X, calls, opts, scripts, obs, outs, rows):
     Xo = opts[0]["args"][0]
     for line, j in zip(outs[pos:pos + 2], rows):
         mr = np.array([b2f(int(t)) for t in line.split()[1:]])
-        if mr.shape != Xo[j].shape or not np.all(np.abs(mr - Xo[j]) <= 1e-14 * (float(np.max(np.abs(X[j]))) + 1e-300)):
-            return dis(f"clipped row {j}", mr, Xo[j])
+        xo = np.asarray(Xo[j], dtype=np.float64)
+        if mr.shape != xo.shape or not np.all(np.abs(mr - xo) <= 1e-14 * (float(np.max(np.abs(X[j]))) + 1e-300)):
+            return dis(f"clipped row {j}", mr, xo)
     return True
 
 
@@ -433,6 +507,16 @@ FIXED = [
      "data": "coords-inside"},
     {"eps": 0.5, "C": 3.0, "norm": 0.7, "d": 3, "n": 30, "classes": 3, "intercept": False, "max_iter": 3, "ic_kind": "np.bool_",
      "data": "coords-inside"},
+    # just above the branch point: eps' = 5e-9 > 0, so Delta = 0 and |b| ~ Gamma(d, 2 s / 5e-9)
+    {"eps": 2 * math.log(2.0) + 5e-9, "C": 4.0, "norm": 1.0, "d": 3, "n": 40, "classes": 2, "intercept": False, "max_iter": 2},
+    {"eps": branch_point(2.0, 1.0, True) + 5e-9, "C": 2.0, "norm": 1.0, "d": 2, "n": 30, "classes": 2, "intercept": True, "max_iter": 2},
+    {"eps": 3 * (branch_point(4.0, 1.0, False) - 1e-8), "C": 4.0, "norm": 1.0, "d": 2, "n": 30, "classes": 3, "intercept": False,
+     "max_iter": 2},
+    # single-precision / integer / list input with rows above the norm
+    {"eps": 1.0, "C": 1.0, "norm": 1.0, "d": 5, "n": 60, "classes": 2, "intercept": True, "max_iter": 3, "xkind": "f32"},
+    {"eps": 1.0, "C": 1.0, "norm": 1.5, "d": 3, "n": 40, "classes": 3, "intercept": False, "max_iter": 3, "xkind": "int"},
+    {"eps": 1.0, "C": 1.0, "norm": 0.8, "d": 4, "n": 40, "classes": 2, "intercept": False, "max_iter": 3, "xkind": "list",
+     "data": "coords-inside"},
 ]
 
 
@@ -476,9 +560,44 @@ def check(ctx):
     stat_fit(ctx, rs, min(40000, ctx.budget(1500, 20000)))
 
 
+def calib_case(eps, C, s, n, d):
+    """one Vector.randomise on a scripted stream with unit gammas 1: the (eps', Delta) it used vs the rule.
+    Returns (failure description or None, observed (eps', Delta, scale), e0, dtol)."""
+    alpha = 1.0 / C
+    rng = seams.ScriptedSystemRandom(normals=[0.5 + 0.1 * j for j in range(4 * d)], gammas=[1.0, 1.0, 1.0, 1.0])
+    m = M.Vector(epsilon=eps, function_sensitivity=0.25, data_sensitivity=s, dimension=d, alpha=alpha, n=n, random_state=rng)
+    fn = c03.zero_fn(d)
+    b, delta, _ = c03.vec_extract(m.randomise(fn), d, n, fn)
+    scale_impl = float(np.linalg.norm(b)) / 4.0
+    epsp_impl = 2 * s / scale_impl
+    dtol = 1e-12 * (1 + float(np.max(np.abs(b))) / n)
+    # branch quantity of the rule with the operations it names; decisive down to 4 ulp of eps
+    e0 = float(eps - 2 * np.log(1 + 0.25 * s / alpha))
+    obs = (epsp_impl, delta, scale_impl)
+    if abs(e0) < 4 * EPS * eps:
+        return None, obs, e0, dtol
+    if e0 > 0:
+        want = (e0, 0.0)
+    else:
+        want = (eps / 2, (0.25 * s / math.expm1(eps / 4) - alpha) / n)
+    total = epsp_impl + 2 * math.log(1 + 0.25 * s / (alpha + n * max(delta, 0.0)))
+    ok = (epsp_impl > 0 and delta >= -dtol and close(total, eps, 1e-9, 1e-9 * n * dtol) and
+          close(epsp_impl, want[0], 1e-9) and close(delta, want[1], 1e-8, dtol))
+    if ok and abs(e0) >= 64 * EPS * eps:
+        # the rule exactly as printed in the paper (another algebraic form), away from rounding of the branch point
+        epsp_ref, delta_ref = ref_calib(eps, 0.25, s, alpha, n)
+        ok = close(epsp_impl, epsp_ref, 1e-9, 64 * EPS * eps) and close(delta, delta_ref, 1e-8, dtol)
+        want = (epsp_ref, delta_ref)
+    if ok:
+        return None, obs, e0, dtol
+    return (f"Vector(epsilon={eps!r}, function_sensitivity=0.25, data_sensitivity={s!r}, alpha={alpha!r}, n={n}, dimension={d}): "
+            f"eps - 2 log(1 + cs/alpha) = {e0!r}, so the rule gives eps'={want[0]!r}, Delta={want[1]!r}; the implementation used "
+            f"eps'={epsp_impl!r}, Delta={delta!r}; eps' + 2 log(1 + cs/(alpha + n Delta)) = {total!r} vs eps = {eps!r}"), obs, e0, dtol
+
+
 def calib_sweep(ctx):
-    """Vector.randomise's (eps', Delta, scale) over eps in [1e-2,20], alpha = 1/C, s, n — implementation (read off a
-    scripted run) vs the CMS rule as printed vs the Lean model"""
+    """Vector.randomise's (eps', Delta, scale) over eps in [1e-2,20], alpha = 1/C, s, n — a third of the cases within
+    1e-12..1e-6 (or 0..64 ulp) of the branch point — implementation (read off a scripted run) vs the CMS rule vs the model"""
     r = ctx.fork("calib")
     N = ctx.budget(400, 8000)
     cases, lines = [], []
@@ -486,40 +605,32 @@ def calib_sweep(ctx):
         eps = r.loguniform(1e-2, 20.0)
         C = r.loguniform(1e-2, 1e2)
         s = r.choice([1.0, math.sqrt(2.0), r.loguniform(0.1, 10.0)])
+        if r.chance(0.33):
+            C = r.choice([4.0, 2.0, r.loguniform(0.05, 50.0)])
+            star = float(2 * np.log(1 + 0.25 * s / (1.0 / C)))
+            if 1e-2 <= star <= 20.0:
+                eps = near_branch(r, star)
         n = r.randint(10, 200)
         d = r.randint(1, 6)
         cases.append((eps, C, s, n, d))
         lines.append(f"calib {F(eps)} {F(0.25)} {F(s)} {F(1.0 / C)} {n}")
     outs = leanio.run_driver("Samplers", lines) if lines else []
     for (eps, C, s, n, d), line in zip(cases, outs):
-        alpha = 1.0 / C
-        rng = seams.ScriptedSystemRandom(normals=[0.5 + 0.1 * j for j in range(4 * d)], gammas=[1.0, 1.0, 1.0, 1.0])
-        m = M.Vector(epsilon=eps, function_sensitivity=0.25, data_sensitivity=s, dimension=d, alpha=alpha, n=n, random_state=rng)
-        fn = c03.zero_fn(d)
-        out = m.randomise(fn)
-        b, delta, _ = c03.vec_extract(out, d, n, fn)
-        scale_impl = float(np.linalg.norm(b)) / 4.0
-        epsp_impl = 2 * s / scale_impl
-        epsp_ref, delta_ref = ref_calib(eps, 0.25, s, alpha, n)
-        ctx.case(("calib", delta_ref > 0, round(math.log(eps), 2), round(math.log(C), 2)))
-        e0 = eps - 2 * math.log(1 + 0.25 * s / alpha)
-        if abs(e0) <= 1e-9 * (1 + eps):
-            ctx.boundary_skipped += 1
+        bad, (epsp_impl, delta, scale_impl), e0, dtol = calib_case(eps, C, s, n, d)
+        ctx.case(("calib", e0 > 0, round(math.log(eps), 2), round(math.log(C), 2), e0 if abs(e0) < 1e-5 else 0))
+        if abs(e0) < 1e-5:
+            ctx.count("branch_point_cases")
+        if bad:
+            ctx.violation("C17:cms-calibration", bad, {"check": "calib", "eps": eps, "C": C, "s": s, "n": n, "d": d})
             continue
-        dtol = 1e-12 * (1 + float(np.max(np.abs(b))) / n)
-        total = epsp_impl + 2 * math.log(1 + 0.25 * s / (alpha + n * max(delta, 0.0)))
-        if not (epsp_impl > 0 and delta >= -dtol and close(total, eps, 1e-9, 1e-9 * n * dtol) and
-                close(epsp_impl, epsp_ref, 1e-9) and close(delta, delta_ref, 1e-8, dtol)):
-            ctx.violation("C17:cms-calibration",
-                          f"Vector(epsilon={eps!r}, function_sensitivity=0.25, data_sensitivity={s!r}, alpha={alpha!r}, n={n}, "
-                          f"dimension={d}): eps'={epsp_impl!r}, Delta={delta!r}; CMS rule gives eps'={epsp_ref!r}, Delta={delta_ref!r}; "
-                          f"eps' + 2 log(1 + cs/(alpha + n Delta)) = {total!r} vs eps = {eps!r}",
-                          {"check": "calib", "eps": eps, "C": C, "s": s, "n": n, "d": d})
+        if abs(e0) < 4 * EPS * eps:
+            ctx.boundary_skipped += 1
             continue
         w = line.split()
         me, md, ms = b2f(int(w[1])), b2f(int(w[2])), b2f(int(w[3]))
-        if not (close(me, epsp_impl, 1e-9) and close(md, delta, 1e-8, dtol) and close(ms, scale_impl, 1e-9)):
-            ctx.disagree("vector.calib", {"eps": eps, "c": 0.25, "s": s, "alpha": alpha, "n": n}, [me, md, ms], [epsp_impl, delta, scale_impl])
+        rel = 1e-9 + 16 * EPS * eps / max(abs(me), 1e-300)
+        if not (close(me, epsp_impl, rel) and close(md, delta, 1e-8, dtol) and close(ms, scale_impl, rel)):
+            ctx.disagree("vector.calib", {"eps": eps, "c": 0.25, "s": s, "alpha": 1.0 / C, "n": n}, [me, md, ms], [epsp_impl, delta, scale_impl])
         else:
             ctx.trace_ok()
 
@@ -528,15 +639,8 @@ def replay(ctx, data):
     d = data["data"]
     chk = d.get("check")
     if chk == "calib":
-        eps, C, s, n, dd = d["eps"], d["C"], d["s"], int(d["n"]), int(d["d"])
-        alpha = 1.0 / C
-        rng = seams.ScriptedSystemRandom(normals=[0.5 + 0.1 * j for j in range(4 * dd)], gammas=[1.0] * 4)
-        m = M.Vector(epsilon=eps, function_sensitivity=0.25, data_sensitivity=s, dimension=dd, alpha=alpha, n=n, random_state=rng)
-        fn = c03.zero_fn(dd)
-        b, delta, _ = c03.vec_extract(m.randomise(fn), dd, n, fn)
-        epsp_impl = 2 * s / (float(np.linalg.norm(b)) / 4.0)
-        epsp_ref, delta_ref = ref_calib(eps, 0.25, s, alpha, n)
-        return not (close(epsp_impl, epsp_ref, 1e-9) and close(delta, delta_ref, 1e-8, 1e-12 * (1 + float(np.max(np.abs(b))) / n)))
+        bad, _, _, _ = calib_case(d["eps"], d["C"], d["s"], int(d["n"]), int(d["d"]))
+        return bad is not None
     if chk in ("stat-vector", "stat-fit"):
         sub = type(ctx)(ctx.prop, d.get("tier", "quick"), int(data.get("seed", 0)))
         check_stats_only(sub)
